@@ -158,6 +158,12 @@ func (m *traceWorld) vals(id int) traceVals {
 			v.null |= 1 << bit
 		}
 	}
+	if id%4 == 2 {
+		// whatever the seed: a string array whose element carries the escape byte in front of the delimiter byte (the
+		// array codec removes escapes in place when it decodes), never written as null
+		v.pa = []string{"\x00", "a\\|b"}
+		v.null &^= 1 << 2
+	}
 	if m.cfg.Big && pick(4) == 0 {
 		v.body = []byte(strings.Repeat(fmt.Sprintf("%08d", id), 40000)) // 320 KB span bodies: several of them cross the block limits
 	}
